@@ -13,7 +13,7 @@
    exactly records bytes convert_ln text_accum features (scan f), and fails exactly when ConvertLn
    rejects a scanned line - so the files of C07 / C08 are the scanned lines of the text. *)
 From DnsV Require Import Base.Bytes Base.Ip Model.Rearranger.
-From DnsV Require Import Model.Diff Spec.MapOfLists Proofs.MultiValue Proofs.Batch Proofs.CompilePipe Proofs.Diff.
+From DnsV Require Import Model.Diff Spec.MapOfLists Proofs.MultiValue Proofs.MapOfLists Proofs.Batch Proofs.CompilePipe Proofs.Diff.
 From DnsV Require Import Model.Text Model.Preproc.
 From DnsV Require Import Proofs.Rearranger Proofs.LinkDiffText Proofs.LinkPreprocRearranger.
 From DnsV Require Proofs.Preproc Proofs.Location.
@@ -119,13 +119,14 @@ Proof.
   unfold kept_lineb in H1. apply andb_true_iff in H1 as [S C]. destruct (trim_scanned l S) as [T L].
   unfold scan in *. cbn [map filter]. rewrite T. unfold compile_skips.
   destruct (Nat.ltb_spec (length l) 2); [lia|]. cbn [orb]. apply Bool.negb_true_iff in C. rewrite C. cbn [negb].
-  rewrite (IH H2). reflexivity.
+  f_equal. exact (IH H2).
 Qed.
 
 Lemma line_of_kept : forall t f0 f1 rest, t <> 32 -> t <> 35 -> kept_lineb (line_of t (f0 :: f1 :: rest)) = true.
 Proof.
   intros t f0 f1 rest A B. unfold kept_lineb, scanned_lineb.
-  pose proof (Proofs.Preproc.line_of_len t f0 f1 rest) as L.
+  assert (L : (2 <= length (line_of t (f0 :: f1 :: rest)))%nat).
+  { unfold line_of. cbn [length joinb]. rewrite app_length. cbn [length]. lia. }
   destruct (Nat.leb_spec 2 (length (line_of t (f0 :: f1 :: rest)))); [|lia]. unfold line_of. cbn [nth andb].
   destruct (N.eqb_spec t 32); [contradiction|]. destruct (N.eqb_spec t 35); [contradiction|]. reflexivity.
 Qed.
@@ -210,9 +211,10 @@ Proof using Hip_rt Hip_nil Hip_nosep Hsort Hser Hps.
   assert (Sc : scan out = out).
   { apply scan_kept. unfold out. rewrite forallb_app. rewrite (pre_go_kept o serial pserial f body _ Wf P1). cbn [andb].
     apply points_kept. intros r Hr.
-    destruct (rearrange_text_ok sort Hsort _ Wn) as (l & El & Et). rewrite Er in El. inversion El; subst l.
+    destruct (rearrange_text_ok sort Hsort _ Wn) as (l & El & Et). rewrite Er in El.
+    assert (Et' : R (file_nets o serial f) = points) by congruence.
     destruct (pre_go_nets o serial pserial f body _ Wf P1) as [_ ON].
-    apply (points_wf o sort (file_nets o serial f) r Hsort ON). rewrite Et. eapply Permutation_in; eassumption. }
+    refine (proj1 (points_wf o sort (file_nets o serial f) r Hsort ON _)). rewrite Et'. eapply Permutation_in; eassumption. }
   destruct (compile_is_records o v2 serial R out kvs' Co) as [Ao Ek']. rewrite Sc in Ao, Ek'.
   pose proof (compile_go_nets o v2 serial out K' [] Cg) as Z. rewrite Sc in Z. symmetry in Z.
   pose proof (records_no_nets o v2 serial R out (rearrange_total_nil sort) Z) as En.
